@@ -65,16 +65,31 @@ theorem minedEq_deleteUnminedCredits (s : Store) (tx : Tx) : MinedEq s (deleteUn
 theorem minedEq_insertUnminedInputs (s : Store) (tr : TxRec) : MinedEq s (insertUnminedInputs s tr) := by
   unfold insertUnminedInputs
   apply minedEq_foldl
-  intro s rel _
+  intro s i _
+  exact ⟨rfl, rfl, rfl, rfl, rfl, rfl, rfl, rfl, rfl, rfl, rfl⟩
+
+theorem minedEq_foldIdx {α : Type} (f : Store → Nat → α → Store) (l : List α) (i : Nat) (s : Store)
+    (h : ∀ s i a, a ∈ l → MinedEq s (f s i a)) : MinedEq s (foldIdx f l i s) := by
+  induction l generalizing s i with
+  | nil => exact MinedEq.refl s
+  | cons a l ih =>
+    rw [foldIdx_cons]
+    exact (h s i a (List.mem_cons_self ..)).trans (ih _ _ (fun s i a' ha' => h s i a' (List.mem_cons_of_mem _ ha')))
+
+theorem minedEq_removeUnminedInputsOf (s : Store) (tx : Tx) : MinedEq s (removeUnminedInputsOf s tx) := by
+  unfold removeUnminedInputsOf
+  apply minedEq_foldl
+  intro s i _
   split
-  · exact ⟨rfl, rfl, rfl, rfl, rfl, rfl, rfl, rfl, rfl, rfl, rfl⟩
+  · dsimp only
+    split <;> exact ⟨rfl, rfl, rfl, rfl, rfl, rfl, rfl, rfl, rfl, rfl, rfl⟩
   · exact MinedEq.refl s
 
 theorem minedEq_removeUnminedGameHistory (own : Own) (s : Store) (tx : Tx) :
     MinedEq s (removeUnminedGameHistory own s tx) := by
   unfold removeUnminedGameHistory
-  apply minedEq_foldl
-  intro s o _
+  apply minedEq_foldIdx
+  intro s i o _
   split
   · split
     · exact ⟨rfl, rfl, rfl, rfl, rfl, rfl, rfl, rfl, rfl, rfl, rfl⟩
@@ -89,7 +104,7 @@ theorem minedEq_removeConflict (own : Own) : ∀ (fuel : Nat) (s : Store) (tx : 
   | succ fuel ih =>
     intro s tx
     unfold removeConflict
-    refine MinedEq.trans (MinedEq.trans (MinedEq.trans ?_ (minedEq_deleteUnminedInputs _ tx))
+    refine MinedEq.trans (MinedEq.trans (MinedEq.trans ?_ (minedEq_removeUnminedInputsOf _ tx))
       (minedEq_removeUnminedGameHistory own _ tx)) ⟨rfl, rfl, rfl, rfl, rfl, rfl, rfl, rfl, rfl, rfl, rfl⟩
     apply minedEq_foldl
     intro s i _
@@ -115,14 +130,18 @@ theorem minedEq_removeDoubleSpends (own : Own) (s : Store) (tr : TxRec) :
   unfold removeDoubleSpends
   refine MinedEq.trans ?_ (minedEq_deleteUnminedInputs _ tr.tx)
   apply minedEq_foldl
-  intro s' rel _
+  intro s' i _
+  apply minedEq_foldl
+  intro s'' ds _
   split
-  · apply minedEq_foldl
-    intro s'' ds _
-    split
-    · exact minedEq_removeConflict own _ _ _
-    · exact MinedEq.refl _
+  · exact minedEq_removeConflict own _ _ _
   · exact MinedEq.refl _
+
+theorem minedEq_purgeUnrelated (own : Own) (s : Store) (txs : List Tx) : MinedEq s (purgeUnrelated own s txs) := by
+  unfold purgeUnrelated
+  apply minedEq_foldl
+  intro s t _
+  exact minedEq_removeDoubleSpends own s _
 
 theorem minedEq_unpendMined (s : Store) (tx : Tx) : MinedEq s (unpendMined s tx) := by
   unfold unpendMined
